@@ -176,6 +176,31 @@ func (m *Machine) installExterns() {
 			m.call(a[0], nil, site)
 			return nil
 		},
+		"vApproxFloats": func(m *Machine, a []value, site ssa.Instruction) value {
+			// inside f inexact float64 operations are over-approximated with a sound error bound (fapx.go)
+			old := m.apxFloats
+			m.apxFloats = true
+			defer func() { m.apxFloats = old }()
+			m.call(a[0], nil, site)
+			return nil
+		},
+		"vApxWithin": func(m *Machine, a []value, site ssa.Instruction) value {
+			// |x - num/den| <= tol * 2^-40, decided from the bound carried by x
+			return m.apxWithin(a[0], a[1], argInt(a[2]), argInt(a[3]))
+		},
+		"vApxFloat": func(m *Machine, a []value, site ssa.Instruction) value {
+			// an arbitrary float64 within tol * 2^-40 of num/den
+			var num *Term
+			switch x := a[0].(type) {
+			case int64:
+				num = m.tb.Int(x)
+			case *Term:
+				num = x
+			default:
+				panic(engineError{"vApxFloat"})
+			}
+			return &FApx{num: num, den: argInt(a[1]), err: m.tb.Int(argInt(a[2]))}
+		},
 		"vFork": func(m *Machine, a []value, site ssa.Instruction) value {
 			switch c := a[0].(type) {
 			case bool:
